@@ -149,11 +149,14 @@ def wait_done(f, until):
         return True
     ev = threading.Event()
     f.add_done_callback(lambda _f: ev.set())
-    rem = until - sched.now()
-    neg = rem <= 0
-    if bool(neg):
-        return f.done()
-    ev.wait(rem)
+    while not f.done():
+        rem = until - sched.now()
+        neg = rem <= 0
+        if bool(neg):
+            break
+        if bool(rem > BIG):
+            rem = BIG  # (a timed wait accepts nothing beyond threading.TIMEOUT_MAX: wait in pieces)
+        ev.wait(rem)
     return f.done()
 
 
